@@ -36,12 +36,14 @@ AuxInit == [tid |-> "", mem |-> MemInit,
             holdDepth |-> EmptyFn,   \* stepKey -> open holds (>0 only)
             heldBy |-> EmptyFn,      \* child stepKey -> holding creator stepKey
             rpcOpen |-> EmptyFn,     \* task -> number of state-changing commits so far
+            released |-> {},         \* steps that closed their outermost hold in this lifetime
+            lostEdge |-> {},         \* files that lost a consumer edge in this trace
             inTxn |-> FALSE,
             draining |-> FALSE,
             dispatchedAfterFail |-> FALSE]
 
 CounterNames == {"commit", "wellformed", "transition", "pop_dispatch", "pop_none", "cmd_start",
-                 "phase_end", "rpc_reject", "rpc_ok", "hold", "traces"}
+                 "phase_end", "rpc_reject", "rpc_ok", "hold", "traces", "pop_none_with_eligible"}
 CntInit == [c \in CounterNames |-> 0]
 Bump(c, name) == [c EXCEPT ![name] = @ + 1]
 
@@ -60,7 +62,7 @@ Mk(e, lineNo, prop, clauses) ==
       ToSeq(S) == IF S = {} THEN <<>>
                   ELSE LET x == CHOOSE x \in S : TRUE
                        IN <<[tid |-> e.tid, line |-> e.k, prop |-> prop, clause |-> x[1],
-                              subj |-> ToString(x[2])]>>
+                              subj |-> ToString(x[2]), kf |-> IF Len(x) > 2 THEN x[3] ELSE ""]>>
                           \o ToSeq(S \ {x})
   IN ToSeq(clauses)
 
@@ -74,10 +76,36 @@ MemOf(e) ==
    clean |-> e.cfg.clean, keepGoing |-> e.cfg.keep_going]
 
 OnProcStart(e) ==
-  /\ aux' = [AuxInit EXCEPT !.tid = e.tid, !.mem = MemOf(e)]
+  /\ aux' = [AuxInit EXCEPT !.tid = e.tid, !.mem = MemOf(e),
+                            !.lostEdge = IF e.tid = aux.tid /\ ~e.fresh THEN aux.lostEdge ELSE {}]
   /\ st' = IF e.tid = aux.tid /\ ~e.fresh THEN st ELSE NoState
   /\ bad' = bad
   /\ cnt' = IF e.tid = aux.tid THEN cnt ELSE Bump(cnt, "traces")
+
+(* ---- known-finding shapes (see known_findings.json; a shape only labels, it never hides) ---- *)
+RECURSIVE Ancestors(_, _)
+Ancestors(db, s) ==
+  LET c == Up(db, s) IN IF c = NULL \/ ~IsStepKey(db, c) THEN {} ELSE {c} \cup Ancestors(db, c)
+
+\* F1: after release(), a step below a child of the former holder keeps a stale _safe = 0
+ShapeStaleSafeAfterRelease(db, s) ==
+  /\ s \in Steps(db) /\ ~db.nodes[s].safe /\ SafeDef(db, s)
+  /\ \E a \in Ancestors(db, s) \cap aux.released :
+        db.nodes[a].sstate = "RUNNING" /\ a # Up(db, s)
+
+\* F2: a producer keeps an elevated _implied_need after a consumer edge of its output was dropped
+ShapeStaleNeedAfterEdgeLoss(db, s) ==
+  /\ s \in Steps(db)
+  /\ NeedRank(db.nodes[s].impliedNeed) >
+       ImpliedNeedDef(db, aux.mem, s, Cardinality(Steps(db)) + 1)
+  /\ \E f \in Sinks(db, s) : f \in aux.lostEdge
+
+Classify(db, viols) ==
+  {IF v[1] \in {"cache_safe", "cache_weak_safe"} /\ ShapeStaleSafeAfterRelease(db, v[2])
+     THEN <<v[1], v[2], "F1-stale-safe-after-release">>
+   ELSE IF v[1] = "cache_implied_need" /\ ShapeStaleNeedAfterEdgeLoss(db, v[2])
+     THEN <<v[1], v[2], "F2-stale-implied-need-after-edge-loss">>
+   ELSE v : v \in viols}
 
 SettleInflight(old, new, infl) ==
   {s \in infl : s \in Keys(new) /\ s \in Keys(old)
@@ -101,7 +129,7 @@ OnCommit(e, lineNo) ==
     IN
     /\ st' = new
     /\ bad' = bad \o Mk(e, lineNo, "C09", wf \cup tr) \o Mk(e, lineNo, "C08", own)
-                  \o Mk(e, lineNo, "C10", cw \cup df)
+                  \o Mk(e, lineNo, "C10", Classify(new, cw) \cup df)
     /\ aux' = [aux EXCEPT
           !.inTxn = FALSE,
           !.inflight = IF IsNoState(st) THEN @ ELSE SettleInflight(st, new, @),
@@ -110,6 +138,9 @@ OnCommit(e, lineNo) ==
                         /\ new.nodes[@[c]].holding > 0}),
           !.holdDepth = Restrict(@, {c \in DOMAIN @ :
                         c \in Keys(new) /\ new.nodes[c].sstate = "RUNNING"}),
+          !.lostEdge = IF IsNoState(st) THEN @
+                       ELSE @ \cup {d[1] : d \in {x \in Deps(st) \ Deps(new) :
+                                     x[1] \in Keys(st) /\ st.nodes[x[1]].kind = "file"}},
           !.rpcOpen = IF task \in DOMAIN @ THEN [@ EXCEPT ![task] = @ + 1] ELSE @]
     /\ cnt' = Bump(Bump(Bump(cnt, "commit"), "wellformed"),
                    IF IsNoState(st) THEN "commit" ELSE "transition")
@@ -139,16 +170,20 @@ OnPop(e, lineNo) ==
         cv == CacheViolations(pre, aux.mem)
         lim == IF e.nrunning >= aux.mem.njob THEN {<<"job_slot_overcommitted", "">>} ELSE {}
         drn == IF e.draining THEN {<<"dispatch_while_draining", "">>} ELSE {}
-    IN /\ bad' = bad \o Mk(e, lineNo, "C10", dv \cup cv \cup drn) \o Mk(e, lineNo, "C12", lim)
+    IN /\ bad' = bad \o Mk(e, lineNo, "C10", dv \cup Classify(pre, cv) \cup drn)
+                     \o Mk(e, lineNo, "C12", lim)
        /\ aux' = [aux EXCEPT !.inflight = @ \cup {s}]
        /\ cnt' = Bump(cnt, "pop_dispatch")
        /\ UNCHANGED st
   ELSE IF e.draining THEN UNCHANGED <<st, aux, bad, cnt>>
   ELSE
     LET cv == CacheViolations(st, aux.mem)
-        left == IF EligibleSteps(st, aux.mem) # {} THEN {<<"eligible_step_not_dispatched", "">>} ELSE {}
-    IN /\ bad' = bad \o Mk(e, lineNo, "C10", cv \cup left)
-       /\ cnt' = Bump(cnt, "pop_none")
+        \* an eligible step at an idle decision is only counted (the property demands it at
+        \* the end of a phase, see OnPhaseEnd); it is never a verdict here
+        left == EligibleSteps(st, aux.mem) # {}
+    IN /\ bad' = bad \o Mk(e, lineNo, "C10", Classify(st, cv))
+       /\ cnt' = IF left THEN Bump(Bump(cnt, "pop_none"), "pop_none_with_eligible")
+                 ELSE Bump(cnt, "pop_none")
        /\ UNCHANGED <<st, aux>>
 
 RunningSteps == {p[2] : p \in aux.running}
@@ -203,6 +238,8 @@ OnRpcEnd(e, lineNo) ==
                          ELSE IF e.name = "release_dispatch" THEN
                                (IF depth <= 1 THEN Drop(@, c) ELSE Put(@, c, depth - 1))
                          ELSE @,
+           !.released = IF e.outcome = "ok" /\ e.name = "release_dispatch" /\ depth <= 1
+                        THEN @ \cup {c} ELSE @,
            !.heldBy = IF e.outcome # "ok" THEN @
                       ELSE IF e.name = "define_step" /\ depth > 0
                            THEN Put(@, StepKey(DefinedLabel(e.args)), c)
